@@ -8,7 +8,8 @@ from ..workloads import specs as W
 BUDGET = {"quick": (1500, 25.0), "thorough": (30000, 150.0)}  # (cases per shard, seconds per shard)
 
 
-def eval_tree(ctx, tree, on_node=None, *, prop, exc_is_violation=True, allow=(ValueError,), arbitrary=False):
+def eval_tree(ctx, tree, on_node=None, *, prop, exc_is_violation=True, allow=(ValueError,), arbitrary=False,
+              node_calls_monitored=False):
     """Evaluate one tree under the monitors; returns (root_value | None, values in post-order)."""
     values = []
     stack = []
@@ -21,8 +22,11 @@ def eval_tree(ctx, tree, on_node=None, *, prop, exc_is_violation=True, allow=(Va
         stack.append(v)
         values.append(v)
         if on_node is not None:
-            with oracle():
+            if node_calls_monitored:  # the node callback *is* workload (its library calls are observed)
                 on_node(t, v, kids)
+            else:
+                with oracle():
+                    on_node(t, v, kids)
 
     try:
         root = W.build(tree, hook)
